@@ -375,6 +375,13 @@ def cm3_encode_line(rng, want, linbuf, force_raw=False):
     c = (len(flags2) + 7) // 8
     if c >= 128:
         return None, False
+    # spare flag bytes: CoCoMax 3 itself writes one extra byte when the block is used up exactly
+    # (all such lines of the shipped clip1.cm3 do), and the decoder reads as many as announced
+    k = rng.random()
+    if len(flags2) % 8 == 0 and len(flags2) and k < 0.5:
+        c += 1
+    elif k < 0.08:
+        c = min(127, c + rng.choice((1, 2, 5, 20, 100)))
     b1 = bytearray(20)
     for i, f in enumerate(flags1):
         if f:
